@@ -34,6 +34,13 @@ def bool01 (s : String) : Bool := s == "1"
 def encodeOp (f : List String) : Option (Res Barcode) :=
   let (f, sch) := splitScheme f
   match f with
+  | ["raw1d", kind, c, bits, cs] => do
+    -- the four public constructors of utils/base1dcode.go
+    let kind ← fromHex kind
+    let c ← fromHex c
+    let bits := bits.toList.map (· == '1')
+    let cs : Option Int ← if cs == "-" then pure none else (intField cs).map some
+    pure (.ok (mk1D (Model.kindStr kind) c bits cs (sch.getD scheme16)))
   | ["ean", c] => do
     let c ← fromHex c
     pure (match sch with | some s => Model.Ean.encodeWithColor c s | none => Model.Ean.encode c)
